@@ -4,6 +4,8 @@
   meaning of an instantiated leaf formula (`inst`, `applyLeaf`) as the formula read in the
   differential ring whose placeholder atoms denote the components of the arguments.
 -/
+import Mathlib.Algebra.Algebra.Basic
+import Mathlib.Algebra.Ring.PUnit
 import SympdeModel.Model.Lower
 import SympdeModel.Sem.DenG
 import SympdeModel.Lemmas.PDeriv
@@ -464,6 +466,85 @@ theorem dEval_LS (S : DRing K) (d : Nat) (c : Coord) (e : E) (hs : LS e = true)
     · exact ihas x hx h1 r' hr
   | _ => simp [LS] at hs
 
+/-! ### the coordinate operators never refuse a lowered scalar form -/
+
+theorem dEvalList_total (d : Nat) (c : Coord) (as : List E)
+    (h : ∀ a ∈ as, ∃ r, dEval d c a = .ok r) : ∃ rs, dEvalList d c as = .ok rs := by
+  induction as with
+  | nil => exact ⟨[], rfl⟩
+  | cons a as ih =>
+    obtain ⟨r, hr⟩ := h a (by simp)
+    obtain ⟨rs, hrs⟩ := ih (fun x hx => h x (by simp [hx]))
+    exact ⟨r :: rs, by simp [dEvalList, hr, hrs, bind, Except.bind]⟩
+
+theorem dProd_total (c : Coord) (l : List (E × Except Err E)) (h : ∀ p ∈ l, ∃ r, p.2 = .ok r) :
+    ∃ v, dProd c l = .ok v := by
+  induction l with
+  | nil => exact ⟨zero, rfl⟩
+  | cons p rest ih =>
+    obtain ⟨a, da⟩ := p
+    obtain ⟨fa, hfa⟩ := h (a, da) (by simp)
+    simp only at hfa
+    subst hfa
+    have ih' := ih (fun p hp => h p (by simp [hp]))
+    match rest, ih', h with
+    | [], _, _ => exact ⟨fa, rfl⟩
+    | [(b, db)], _, h =>
+      obtain ⟨fb, hfb⟩ := h (b, db) (by simp)
+      simp only at hfb
+      subst hfb
+      exact ⟨_, rfl⟩
+    | q :: q2 :: rest'', ih', h =>
+      obtain ⟨v, hv⟩ := ih'
+      unfold dProd
+      simp only [bind, Except.bind]
+      rw [hv]
+      split
+      · rename_i err he
+        split at he <;> cases he
+      · exact ⟨_, rfl⟩
+
+theorem dEval_LS_total (d : Nat) (c : Coord) (e : E) (hs : LS e = true) : ∃ r, dEval d c e = .ok r := by
+  induction e using E.rec
+    (motive_2 := fun as => ∀ a ∈ as, LS a = true → ∃ r, dEval d c a = .ok r) with
+  | num p q => simp [dEval, hasT, isNumber]
+  | cst s => simp [dEval, hasT, isNumber]
+  | sym s => simp [dEval, hasT, isNumber]
+  | sf s k => simp [dEval]
+  | idx b k _ => simp [dEval]
+  | pd c' a _ =>
+    simp only [dEval, reorderL]
+    split
+    · split <;> exact ⟨_, rfl⟩
+    · exact ⟨_, rfl⟩
+  | add as ih =>
+    have hs' : ∀ a ∈ as, LS a = true := fun a ha => LSList_mem (by simpa [LS] using hs) ha
+    simp only [dEval]
+    split
+    · exact ⟨_, rfl⟩
+    · obtain ⟨rs, hrs⟩ := dEvalList_total d c as (fun a ha => ih a ha (hs' a ha))
+      simp [hrs, bind, Except.bind]
+  | mul as ih =>
+    have hs' : ∀ a ∈ as, LS a = true := fun a ha => LSList_mem (by simpa [LS] using hs) ha
+    simp only [dEval]
+    split
+    · exact ⟨_, rfl⟩
+    · obtain ⟨v, hv⟩ := dProd_total c ((as.zip (dEvalListE d c as)).filter (fun p => !isCoef p.1)) (by
+        intro p hp
+        have hp' := (List.mem_filter.mp hp).1
+        rw [dEvalListE_map] at hp'
+        have := mem_zip_map (dEval d c) as p hp'
+        rw [this.2]
+        exact ih p.1 this.1 (hs' _ this.1))
+      simp [hv, bind, Except.bind]
+  | nil => cases ‹_ ∈ []›
+  | cons a as iha ihas =>
+    rename_i x hx h1
+    rcases List.mem_cons.mp hx with rfl | hx
+    · exact iha h1
+    · exact ihas x hx h1
+  | _ => simp [LS] at hs
+
 /-! ### instantiated leaf formulas -/
 
 /-- the ring in which the placeholder atoms denote the (scalar) values bound by `σ`; everything
@@ -622,6 +703,71 @@ theorem inst_mat_sound (S : DRing K) (d : Nat) (σ : List (String × E))
       (fun f hfm t ht => inst_sound S d σ hσ f (FSList_mem hf hfm) t ht) ts h1
     refine ⟨ts, rfl, this.1, this.2.1, fun i j => ?_⟩
     simp only [den, this.2.2.2.2]
+
+/-- the differential ring with one element (only used to read off statements that do not mention
+    the ring, such as the shape of a lowered value) -/
+def trivialRing : DRing PUnit where
+  D := fun _ _ => PUnit.unit
+  D_add := fun _ _ _ => rfl
+  D_mul := fun _ _ _ => rfl
+  D_comm := fun _ _ _ => rfl
+  D_rat := fun _ _ => rfl
+  sf := fun _ => PUnit.unit
+  vf := fun _ _ => PUnit.unit
+  cst := fun _ => PUnit.unit
+  D_cst := fun _ _ => rfl
+  sym := fun _ => PUnit.unit
+  D_sym := fun _ _ => Subsingleton.elim _ _
+  fn := fun _ _ => PUnit.unit
+  fn' := fun _ _ => PUnit.unit
+  D_fn := fun _ _ _ => rfl
+  inv := fun _ => PUnit.unit
+  rpow := fun _ _ => PUnit.unit
+  D_rpow := fun _ _ _ => rfl
+  rpow_pred := fun _ _ _ => rfl
+
+theorem instList_total (d : Nat) (σ : List (String × E)) (fs : List E)
+    (h : ∀ f ∈ fs, ∃ t, inst d σ f = .ok t) : ∃ ts, instList d σ fs = .ok ts := by
+  induction fs with
+  | nil => exact ⟨[], rfl⟩
+  | cons f fs ih =>
+    obtain ⟨t, ht⟩ := h f (by simp)
+    obtain ⟨ts, hts⟩ := ih (fun x hx => h x (by simp [hx]))
+    exact ⟨t :: ts, by simp [instList, ht, hts, bind, Except.bind]⟩
+
+/-- **instantiating a scalar formula never fails** (its derivative nodes are evaluated on lowered
+    scalar forms, which the coordinate operators never refuse) -/
+theorem inst_total (d : Nat) (σ : List (String × E)) (hσ : ∀ p ∈ σ, LS p.2 = true) (f : E)
+    (hf : FS f = true) : ∃ t, inst d σ f = .ok t := by
+  induction f using E.rec
+    (motive_2 := fun fs => ∀ f ∈ fs, FS f = true → ∃ t, inst d σ f = .ok t) with
+  | num p q => simp [inst]
+  | sf n k => simp [inst]
+  | pd c a ih =>
+    obtain ⟨a', ha'⟩ := ih (by simpa [FS] using hf)
+    have hl := (inst_sound trivialRing d σ hσ a (by simpa [FS] using hf) a' ha').1
+    obtain ⟨r, hr⟩ := dEval_LS_total d c a' hl
+    exact ⟨r, by simp [inst, ha', hr, bind, Except.bind]⟩
+  | add as ih =>
+    have hf' : ∀ a ∈ as, FS a = true := fun a ha => FSList_mem (by simpa [FS] using hf) ha
+    obtain ⟨ts, hts⟩ := instList_total d σ as (fun f hfm => ih f hfm (hf' f hfm))
+    simp [inst, hts, bind, Except.bind]
+  | mul as ih =>
+    have hf' : ∀ a ∈ as, FS a = true := fun a ha => FSList_mem (by simpa [FS] using hf) ha
+    obtain ⟨ts, hts⟩ := instList_total d σ as (fun f hfm => ih f hfm (hf' f hfm))
+    simp [inst, hts, bind, Except.bind]
+  | nil => cases ‹_ ∈ []›
+  | cons a as iha ihas =>
+    rename_i x hx h1
+    rcases List.mem_cons.mp hx with rfl | hx
+    · exact iha h1
+    · exact ihas x hx h1
+  | _ => simp [FS] at hf
+
+theorem inst_mat_total (d : Nat) (σ : List (String × E)) (hσ : ∀ p ∈ σ, LS p.2 = true) (r c : Nat)
+    (fs : List E) (hf : FSList fs = true) : ∃ t, inst d σ (mat r c fs) = .ok t := by
+  obtain ⟨ts, hts⟩ := instList_total d σ fs (fun f hfm => inst_total d σ hσ f (FSList_mem hf hfm))
+  simp [inst, hts, bind, Except.bind]
 
 /-! ### application of a leaf class -/
 
